@@ -1439,6 +1439,12 @@ impl ProtocolState {
 
                 if let Err(error) = validate_packet_outbound_internal(packet, &validation_context) {
                     warn!("[{} ms] service_queue - {} operation {} failed last-chance validation", self.elapsed_time_ms, mqtt_packet_to_str(packet), current_operation_id);
+                    if outbound_alias_resolution.alias.is_some() {
+                        // the resolver may have recorded an alias binding for this packet, which the server will
+                        // never see; forget the bindings so that later publishes establish them on the wire again
+                        let topic_alias_maximum = self.current_settings.as_ref().map(|settings| settings.topic_alias_maximum_to_server).unwrap_or(0);
+                        self.outbound_alias_resolver.borrow_mut().reset_for_new_connection(topic_alias_maximum);
+                    }
                     self.current_operation = None;
                     self.complete_operation_as_failure(current_operation_id, error)?;
                     continue;
